@@ -11,6 +11,7 @@ mod keys;
 mod model;
 mod ondisk;
 mod ops;
+mod plant;
 mod real;
 mod report;
 mod seq;
@@ -105,6 +106,7 @@ fn main() {
                 "fault" => fault::run(&a.tier, a.slice, a.seed),
                 "input" => input::run(&a.tier, a.slice, a.seed, &prop),
                 "waldmg" => waldmg::run(&a.tier, a.slice, a.seed),
+                "plant" => plant::run(&a.tier, a.slice, a.seed),
                 _ => {
                     eprintln!("unknown engine {engine}");
                     std::process::exit(2);
@@ -126,6 +128,7 @@ pub fn replay(case: &Value) -> Vec<report::Violation> {
         "fault" => fault::replay(case),
         "input" => input::replay(case),
         "waldmg" => waldmg::replay(case),
+        "plant" => plant::replay(case),
         e => {
             eprintln!("cannot replay engine {e:?}");
             std::process::exit(2);
